@@ -44,7 +44,9 @@ NOISE = ["/* c */", "/** doc **/", "/***/", "/**/", "/* a", "// c", "// #endif",
          "#define VNOISE \"/*\"", "#define VNOISE2 '\"'", "#define VNOISE3 \"//\" /* c */", "#undef VNOISE",
          # a backslash-newline splices the next line onto a // comment: the "directive" below is comment text
          "// splice \\\n#endif", "// splice \\\n#else", "// splice \\\n#define M 1", "// splice \\\n#undef M",
-         "int VN; // splice \\\n#elif 1", "// two splices \\\n \\\n#endif"]
+         "int VN; // splice \\\n#elif 1", "// two splices \\\n \\\n#endif",
+         # a comment that begins with "/*/" is still open after those three characters
+         "/*/ c */", "/*/ #endif */", "/*/\n#endif\n#else\n#define M 1\n*/", "/*/*/", "/*//*/ int VN2;"]
 # shapes that only conforming scanners need to get right inside a SKIPPED group (not valid declarations)
 NOISE_SKIPPED_ONLY = ['"/*"', "'\"'", "don't /* c */", '"unterminated', "@ $ ` \\ stray", "/* x */ text /* y */"]
 # (cfg, simulate traces per worker or None)
